@@ -4,7 +4,7 @@ from simple import Simple
 
 S = Simple("C04", "hashmac", "hashmac.cpp",
            lambda tier: hb.quick_cfgs() if tier == "quick" else hb.five_backends(),
-           lambda tier: [("c04_mac", 40000 if tier == "quick" else 600000, 100)],
+           lambda tier: [("c04_mac", 150000 if tier == "quick" else 1500000, 100)],
            "Case = (mode in prf/prf_fixed/prf_short/mac/mac_verify/hmac/hmaca/kmac/kmaca, key (HMAC 0..200 B with classes 0/31/32/33/63/64/65/200, "
            "KMAC 0..80), message (boundary mixture on the 32-byte PRF rate / 8-byte hash rate), output length 0..4096, declared length, "
            "customisation 0..40 B). mac_verify cases: the correct tag must give 0; all 128 single-bit flips / a random tag / the tag of a "
